@@ -191,6 +191,36 @@ def kani_cmd(harness_names, target_dir, features, extra=None, timeout_each=None)
     return cmd
 
 
+def resolve_unwindset(tdir, h, features):
+    """`@unwindset <pretty fn name>:k; ...`  ->  cbmc --unwindset argument with the mangled names of this build.
+    Needs the goto binary, so the crate is code-generated first (--only-codegen)."""
+    import glob
+    full = "%s::%s" % (h.module, h.name)
+    cmd = kani_cmd([full], tdir, features) + ["--only-codegen"]
+    subprocess.run(cmd, cwd=KANI_DIR, env=ENV, capture_output=True, text=True, timeout=900)
+    outs = sorted(glob.glob(os.path.join(tdir, "**", "out", "*%s.out" % h.name), recursive=True), key=os.path.getmtime)
+    if not outs:
+        return None
+    p = subprocess.run(["goto-instrument", "--list-goto-functions", outs[-1]], capture_output=True, text=True, timeout=300)
+    table = {}
+    for ln in p.stdout.split("\n"):
+        m = re.match(r"^(.*?) /\* (\S+) \*/\s*$", ln)
+        if m:
+            table.setdefault(m.group(1).strip(), []).append(m.group(2))
+    items = []
+    for spec in h.meta["unwindset"].split(";"):
+        spec = spec.strip()
+        if not spec:
+            continue
+        pretty, k = spec.rsplit(":", 1)
+        hits = table.get(pretty.strip(), [])
+        if not hits:
+            hits = [v for kk, vs in table.items() if pretty.strip() in kk for v in vs]
+        for mangled in hits:
+            items.append("%s:%s" % (mangled, k.strip()))
+    return ",".join(items) if items else None
+
+
 def run_kani_group(gid, harnesses, features, tag, mem_gb=14):
     """One cargo-kani process (own target dir), harnesses verified sequentially."""
     names = [h.name for h in harnesses]
@@ -201,7 +231,13 @@ def run_kani_group(gid, harnesses, features, tag, mem_gb=14):
     extra = []
     if any(h.meta.get("stubbing") for h in harnesses):
         extra += ["-Z", "stubbing"]
-    cmd = kani_cmd(full, tdir, features, extra=extra, timeout_each=tmo)
+    tail = []
+    if len(harnesses) == 1 and harnesses[0].meta.get("unwindset"):
+        uw = resolve_unwindset(tdir, harnesses[0], features)
+        if uw:
+            # per-function recursion bounds; CBMC's unwinding assertions stay on, so a bound that is too small FAILS
+            tail = ["--cbmc-args", "--unwindset", uw]
+    cmd = kani_cmd(full, tdir, features, extra=extra, timeout_each=tmo) + tail
     logf = os.path.join(tdir, "kani.log")
     t0 = time.time()
     total_to = 240 + sum(h.timeout + 30 for h in harnesses)
@@ -236,10 +272,14 @@ def run_kani(harnesses, features, tag, jobs=12):
         return {}
     # longest first, round-robin into groups
     hs = sorted(harnesses, key=lambda h: -h.timeout)
-    ng = max(1, min(jobs, len(hs)))
+    solo = [h for h in hs if h.meta.get("unwindset")]
+    rest = [h for h in hs if not h.meta.get("unwindset")]
+    ng = max(1, min(jobs, len(rest))) if rest else 0
     groups = [[] for _ in range(ng)]
-    for i, h in enumerate(hs):
+    for i, h in enumerate(rest):
         groups[i % ng].append(h)
+    groups = [g for g in groups if g] + [[h] for h in solo]
+    ng = len(groups)
     out = {}
     with ThreadPoolExecutor(max_workers=ng) as ex:
         futs = [ex.submit(run_kani_group, i, g, features, tag) for i, g in enumerate(groups)]
